@@ -16,7 +16,8 @@ Open Scope Z_scope.
 Definition idx : Type := (Z * Z * Z)%type.
 Definition shape3 : Type := (Z * Z * Z)%type.
 
-Inductive cell := Src (i : idx) | Fill (v : Q).
+(* Mix: a value interpolated from several input voxels (spline order >= 1): neither an input voxel nor a fill *)
+Inductive cell := Src (i : idx) | Fill (v : Q) | Mix.
 
 Record view := mkView { vshape : shape3; vat : idx -> cell }.
 
@@ -121,6 +122,19 @@ Definition idx_eqb (a b : idx) : bool :=
   let '(i, j, k) := a in let '(i', j', k') := b in (i =? i') && (j =? j') && (k =? k').
 Definition mask_of_list (l : list idx) : bmask := fun o => existsb (idx_eqb o) l.
 
+(* ---- scipy.ndimage.zoom(img, (zy, zx, zz), order): output extent int(round(n * z)) per axis (Python round,
+   half to even); for order 0 output voxel o takes input voxel floor(o * (n - 1) / (n' - 1) + 1/2) (0 when n' = 1);
+   for order >= 1 the values are spline mixtures (Mix).  Shapes hold for every order. ---- *)
+Definition zoom_len (n : Z) (z : Q) : Z := py_round (inject_Z n * z).
+Definition zoom_src (n n' o : Z) : Z :=
+  if n' <=? 1 then 0 else Qfloor (inject_Z o * (inject_Z (n - 1) / inject_Z (n' - 1)) + (1 # 2)).
+Definition v_zoom (zy zx zz : Q) (order : Z) (v : view) : view :=
+  let '(h, w, d) := vshape v in
+  let '(h', w', d') := (zoom_len h zy, zoom_len w zx, zoom_len d zz) in
+  mkView (h', w', d')
+    (fun o => let '(i, j, k) := o in
+              if order =? 0 then vat v (zoom_src h h' i, zoom_src w w' j, zoom_src d d' k) else Mix).
+
 (* ---- enumeration of a view for the correspondence check ---- *)
 Fixpoint zrange (n : nat) (from : Z) : list Z :=
   match n with O => [] | S m => from :: zrange m (from + 1) end.
@@ -133,6 +147,7 @@ Definition label_of (sh0 : shape3) (c : cell) (fill_label : Z -> Z) : Z :=
   match c with
   | Src (i, j, k) => let '(h, w, d) := sh0 in (i * w + j) * d + k + 1
   | Fill q => fill_label (Qnum q)
+  | Mix => (-999)
   end.
 Definition render (sh0 : shape3) (v : view) : shape3 * list Z :=
   (vshape v, map (fun o => label_of sh0 (vat v o) (fun z => z)) (all_indices (vshape v))).
